@@ -318,7 +318,7 @@ func shapeOf(s *spec, pos int) string {
 }
 
 func main() {
-	run := lib.Start("C02", "generated origin responses (16 status codes incl. 204/304, standard/custom/empty reason, 0-8 fields with repeats incl. Set-Cookie x3, hop-by-hop and Connection-nominated fields, framing CL / chunked (PRNG chunk sizes, extensions) / chunked+1-3 declared trailers / EOF / bodiless with CL or TE fields, gzip-coded bodies, PRNG write segmentation incl. CRLF splits) x client (GET/HEAD/POST, HTTP/1.1 or 1.0, Connection absent/keep-alive/close, Accept-Encoding none/gzip/identity) in sequences of 1-8 exchanges per connection; client byte stream cut by an independent parser and compared with the origin's spec by id; incremental-delivery gates for SSE and chunked streams; distinct = (method, proto, conn option, status, framing, size class, gzip, AE, hop-by-hop count, position, reason kind)")
+	run := lib.Start("C02", "generated origin responses (16 status codes incl. 204/304, standard/custom/empty reason, 0-8 fields with repeats incl. Set-Cookie x3, hop-by-hop and Connection-nominated fields, framing CL / chunked (PRNG chunk sizes, extensions) / chunked+1-3 declared trailers / EOF / bodiless with CL or TE fields, gzip-coded bodies, PRNG write segmentation incl. CRLF splits) x client (GET/HEAD/POST, HTTP/1.1 or 1.0, Connection absent/keep-alive/close, Accept-Encoding none/gzip/identity) in sequences of 1-8 exchanges per connection; client byte stream cut by an independent parser and compared with the origin's spec by id; incremental-delivery gates for SSE and chunked streams; 5 MiB downloads parked at slow readers on 6 connections while 30 others are served, under body / headers / errors logging, every byte compared with the per-response pattern; distinct = (method, proto, conn option, status, framing, size class, gzip, AE, hop-by-hop count, position, reason kind)")
 	hb := lib.StartHeartbeat()
 	root := run.RNG()
 	origin := lib.MustOrigin("origin", "127.0.0.1:0", nil, originHandler)
